@@ -30,6 +30,7 @@ type scen struct {
 	race   string // "" | "tie" | "early"
 	delay  int    // race: the runtime answers after this many ms
 	second int    // history scenarios: 1-based index of a second invocation that must time out as well (0: none)
+	helper bool   // the runtime forks a helper process (same process group, ignores TERM) when it starts
 	slowGo bool   // one goroutine of the emulator may be slower than a timer (sched.HoldThroughTimer): time bounds are not judged, and an invocation other than the faulty one may time out itself, nothing else
 }
 
@@ -40,12 +41,27 @@ func (s scen) name() string {
 	if s.slowGo {
 		return s.Scen.Name() + fmt.Sprintf(" slow-goroutine B=%d", s.bound)
 	}
+	if s.helper {
+		return s.Scen.Name() + fmt.Sprintf(" with-forked-helpers B=%d", s.bound)
+	}
 	return s.Scen.Name() + fmt.Sprintf(" B=%d", s.bound)
 }
 
 func (s scen) config() *stack.Config {
 	if s.race == "" {
-		return s.Scen.Config()
+		cfg := s.Scen.Config()
+		if s.helper {
+			fork := func(inner func(*stack.Actor)) func(*stack.Actor) {
+				return func(a *stack.Actor) {
+					if a.P != nil && a.P.Alive {
+						a.P.Fork(a.P.Path+"+helper", nil, func(*vexec.Proc) {})
+					}
+					inner(a)
+				}
+			}
+			cfg.Runtime = fork(cfg.Runtime)
+		}
+		return cfg
 	}
 	cfg := &stack.Config{TimeoutSec: T}
 	cfg.Runtime = func(rt *stack.Actor) {
@@ -172,7 +188,7 @@ func (s scen) judge(e *sched.Exec) (string, string, *sched.Failure) {
 				}
 			}
 			for _, k := range w.K.Log {
-				if k.Kind == "exec" && sched.HB(k.At, inv.AnsAt) && !dead[k.Pid] {
+				if (k.Kind == "exec" || k.Kind == "fork") && sched.HB(k.At, inv.AnsAt) && !dead[k.Pid] {
 					failf("4", "process-survives-timeout:"+procClass(k), "process %d (%s) of the timed-out environment was not terminated before the answer", k.Pid, k.Path)
 				}
 			}
@@ -213,6 +229,9 @@ func bodyClass(b []byte, echo string) string {
 func procClass(k vexec.Event) string {
 	if k.Path == stack.BootstrapPath {
 		return "runtime"
+	}
+	if strings.HasSuffix(k.Path, "+helper") {
+		return "forked-helper"
 	}
 	return "extension"
 }
@@ -293,6 +312,15 @@ func init() {
 						ss = append(ss, scen{Scen: sc2, bound: b0, second: -1})
 					}
 				}
+			}
+		}
+		// a runtime that has a child of its own and has to be killed: the kill takes the whole group. (Only the runtime,
+		// and only one that ignores TERM: a process that exits by itself is never killed - C09 forbids it - and the
+		// supervisor has no handle on what it leaves behind.)
+		for next := 0; next <= 1; next++ {
+			for _, pt := range []string{"after-next", "before-next"} {
+				f := faults.Fault{Who: "runtime", Point: pt, Action: "stall", At: 1}
+				ss = append(ss, scen{Scen: faults.Scen{NExt: next, F: &f, Timeout: T, OnTermRt: "ignore"}, bound: b0, helper: true})
 			}
 		}
 		// a few with deviations
